@@ -1233,6 +1233,8 @@ func (c *Compat) BitCount(ctx context.Context, key string, bitCount *BitCount) *
 		resp = c.client.Do(ctx, c.client.B().Bitcount().Key(key).Start(bitCount.Start).End(bitCount.End).Byte().Build())
 	case BitCountIndexBit:
 		resp = c.client.Do(ctx, c.client.B().Bitcount().Key(key).Start(bitCount.Start).End(bitCount.End).Bit().Build())
+	default: // send the unknown unit as it is, like go-redis does, so that a command is always issued (pipelines pair one result with one command)
+		resp = c.client.Do(ctx, c.client.B().Arbitrary("BITCOUNT").Keys(key).Args(strconv.FormatInt(bitCount.Start, 10), strconv.FormatInt(bitCount.End, 10), bitCount.Unit).Build())
 	}
 	return newIntCmd(resp)
 }
